@@ -151,63 +151,99 @@ func checkKernel(w *load.World, c *core.Collector, f *asmFunc, props []string) {
 		c.Notef("ASM: %s consults only len(x); equal operand lengths are the callers' obligation (VALID)", f.name)
 	}
 	checkRegisterFlow(w, c, f, cnt, props)
-	// loops: label L ... JMP L
-	type loop struct {
-		label      string
-		start, end int
-	}
-	var loops []loop
-	for i, in := range f.ins {
-		if in.op == "JMP" && len(in.args) == 1 {
-			if s, ok := f.label[in.args[0]]; ok && s <= i {
-				loops = append(loops, loop{in.args[0], s, i})
-			}
-		}
-	}
-	if len(loops) < 2 {
-		c.Add("ASM", f.name+":loops", core.Undecided, rel, fmt.Sprintf("expected a block loop and a tail loop, found %d loops", len(loops)), props...)
-		return
-	}
+	// Symbolic check of the traversal. Invariant at every block entry: both pointers have advanced
+	// by 4*c bytes and the count register holds n-c, for the same c. Per block: what is read through
+	// each pointer, relative to the entry, tiles [0,k) floats exactly once where k is what the block
+	// takes off the count; both pointers advance by 4k; and k (and every element read) lies below
+	// the lower bound the branch conditions establish for the count at the block's entry. At RET
+	// the count is known to be zero. This holds for top-tested and bottom-tested loops alike.
 	accs := map[string]bool{}
-	lastLoopEnd := 0
-	for _, lp := range loops {
-		if lp.end > lastLoopEnd {
-			lastLoopEnd = lp.end
+	for _, in := range f.ins {
+		if strings.HasPrefix(in.op, "VFMADD") {
+			accs[in.args[len(in.args)-1]] = true
 		}
-		var addX, addY, sub int64 = -1, -1, -1
-		var guardImm int64 = -1
-		guardJump := ""
-		offs := map[string]map[int64]int64{px: {}, py: {}}
-		for i := lp.start; i <= lp.end; i++ {
+	}
+	isJcc := func(op string) bool {
+		switch op {
+		case "JL", "JLT", "JGE", "JLE", "JG", "JGT", "JE", "JEQ", "JZ", "JNE", "JNZ", "JB", "JLO", "JCS", "JAE", "JHS", "JCC", "JA", "JHI", "JBE", "JLS":
+			return true
+		}
+		return false
+	}
+	// block boundaries
+	leader := map[int]bool{0: true}
+	for _, idx := range f.label {
+		leader[idx] = true
+	}
+	for i, in := range f.ins {
+		if in.op == "JMP" || isJcc(in.op) || in.op == "RET" {
+			leader[i+1] = true
+		}
+	}
+	var starts []int
+	for i := range leader {
+		if i < len(f.ins) {
+			starts = append(starts, i)
+		}
+	}
+	sort.Ints(starts)
+	type ablock struct {
+		start, end int // inclusive
+		name       string
+	}
+	var blocks []ablock
+	blockAt := map[int]int{}
+	labelAt := map[int]string{}
+	for l, idx := range f.label {
+		if cur, ok := labelAt[idx]; !ok || l < cur {
+			labelAt[idx] = l
+		}
+	}
+	lastLabel := "entry"
+	for bi, st := range starts {
+		en := len(f.ins) - 1
+		if bi+1 < len(starts) {
+			en = starts[bi+1] - 1
+		}
+		if l, ok := labelAt[st]; ok {
+			lastLabel = l
+		}
+		blockAt[st] = len(blocks)
+		blocks = append(blocks, ablock{st, en, lastLabel})
+	}
+	const inf = int64(1) << 40
+	type ival struct{ lo, hi int64 }
+	hull := func(a, b ival) ival {
+		if b.lo < a.lo {
+			a.lo = b.lo
+		}
+		if b.hi > a.hi {
+			a.hi = b.hi
+		}
+		return a
+	}
+	type bsum struct {
+		dx, dy, dc int64
+		loadsX     map[int64]int64 // byte offset relative to the entry pointer -> width in bytes
+		loadsY     map[int64]int64
+		dupX, dupY bool
+		bad        string
+		// branch at the end: comparison of the (updated) count with k
+		jop    string
+		target int
+		cmpK   int64
+		hasCmp bool
+		ret    bool
+		jmp    bool
+	}
+	sums := make([]bsum, len(blocks))
+	for bi, b := range blocks {
+		sm := bsum{loadsX: map[int64]int64{}, loadsY: map[int64]int64{}, target: -1}
+		flagsOK := false
+		var cmpK int64
+		for i := b.start; i <= b.end; i++ {
 			in := f.ins[i]
-			switch in.op {
-			case "ADDQ":
-				if v, ok := imm(in.args[0]); ok {
-					if in.args[1] == px {
-						addX = v
-					}
-					if in.args[1] == py {
-						addY = v
-					}
-				}
-			case "SUBQ":
-				if v, ok := imm(in.args[0]); ok && in.args[1] == cnt {
-					sub = v
-				}
-			case "DECQ":
-				if in.args[0] == cnt {
-					sub = 1
-				}
-			case "CMPQ":
-				if in.args[0] == cnt {
-					if v, ok := imm(in.args[1]); ok {
-						guardImm = v
-						if i+1 < len(f.ins) {
-							guardJump = f.ins[i+1].op
-						}
-					}
-				}
-			}
+			// memory reads through the two pointers
 			width := regWidth(in.op, in.args)
 			for ai, a := range in.args {
 				m := memRe.FindStringSubmatch(a)
@@ -218,50 +254,315 @@ func checkKernel(w *load.World, c *core.Collector, f *asmFunc, props []string) {
 				if m[1] != "" {
 					off, _ = strconv.ParseInt(m[1], 10, 64)
 				}
-				if _, tracked := offs[m[2]]; tracked && ai < len(in.args)-1 && width > 0 {
-					offs[m[2]][off] = width
+				if ai == len(in.args)-1 && len(in.args) > 1 && (m[2] == px || m[2] == py) {
+					sm.bad = fmt.Sprintf("%s writes through an operand pointer", in.op)
+					continue
+				}
+				if width <= 0 {
+					continue
+				}
+				switch m[2] {
+				case px:
+					if _, dup := sm.loadsX[sm.dx+off]; dup {
+						sm.dupX = true
+					}
+					sm.loadsX[sm.dx+off] = width
+				case py:
+					if _, dup := sm.loadsY[sm.dy+off]; dup {
+						sm.dupY = true
+					}
+					sm.loadsY[sm.dy+off] = width
 				}
 			}
-			if strings.HasPrefix(in.op, "VFMADD") {
-				accs[in.args[len(in.args)-1]] = true
+			dst := ""
+			if len(in.args) > 0 {
+				dst = in.args[len(in.args)-1]
+			}
+			switch in.op {
+			case "ADDQ", "SUBQ":
+				v, isImm := imm(in.args[0])
+				sign := int64(1)
+				if in.op == "SUBQ" {
+					sign = -1
+				}
+				switch dst {
+				case px, py, cnt:
+					if !isImm {
+						sm.bad = fmt.Sprintf("%s %s: not a constant step", in.op, strings.Join(in.args, ", "))
+					}
+				}
+				switch dst {
+				case px:
+					sm.dx += sign * v
+				case py:
+					sm.dy += sign * v
+				case cnt:
+					sm.dc -= sign * v
+				}
+				flagsOK, cmpK = dst == cnt, 0
+			case "INCQ", "DECQ":
+				sign := int64(1)
+				if in.op == "DECQ" {
+					sign = -1
+				}
+				switch dst {
+				case px, py:
+					sm.bad = in.op + " on an operand pointer"
+				case cnt:
+					sm.dc -= sign
+				}
+				flagsOK, cmpK = dst == cnt, 0
+			case "CMPQ":
+				flagsOK = false
+				if in.args[0] == cnt {
+					if v, ok := imm(in.args[1]); ok {
+						flagsOK, cmpK = true, v
+					}
+				}
+			case "TESTQ":
+				flagsOK, cmpK = len(in.args) == 2 && in.args[0] == cnt && in.args[1] == cnt, 0
+			case "MOVQ", "LEAQ", "XORQ", "ANDQ", "ORQ", "SHLQ", "SHRQ", "NEGQ", "IMULQ":
+				if dst == px || dst == py || dst == cnt {
+					// the prologue loads them; later writes are outside the vocabulary
+					if !(in.op == "MOVQ" && strings.Contains(in.args[0], "(FP)")) {
+						sm.bad = fmt.Sprintf("%s changes %s in a way the check does not model", in.op, dst)
+					}
+				}
+				if in.op != "MOVQ" && in.op != "LEAQ" {
+					flagsOK = false
+				}
+			case "RET":
+				sm.ret = true
+			case "JMP":
+				sm.jmp = true
+				if t, ok := f.label[in.args[0]]; ok {
+					sm.target = blockAt[t]
+				}
+			default:
+				if isJcc(in.op) {
+					sm.jop = in.op
+					sm.hasCmp, sm.cmpK = flagsOK, cmpK
+					if t, ok := f.label[in.args[0]]; ok {
+						sm.target = blockAt[t]
+					}
+				}
 			}
 		}
-		key := f.name + ":" + lp.label
+		sums[bi] = sm
+	}
+	// branch semantics on "count REL k", as intervals for the taken and the fall-through edge
+	refine := func(cur ival, op string, k int64) (taken, fall ival, ok bool) {
+		taken, fall = cur, cur
+		clamp := func(v ival) ival {
+			if v.lo < 0 {
+				v.lo = 0
+			}
+			return v
+		}
+		lt := func(v ival, k int64) ival { // count < k
+			if v.hi > k-1 {
+				v.hi = k - 1
+			}
+			return v
+		}
+		ge := func(v ival, k int64) ival {
+			if v.lo < k {
+				v.lo = k
+			}
+			return v
+		}
+		eq := func(v ival, k int64) ival { return ival{k, k} }
+		ne := func(v ival, k int64) ival {
+			if v.lo == k {
+				v.lo = k + 1
+			}
+			if v.hi == k {
+				v.hi = k - 1
+			}
+			return v
+		}
+		switch op {
+		case "JL", "JLT", "JB", "JLO", "JCS":
+			taken, fall = lt(cur, k), ge(cur, k)
+		case "JGE", "JAE", "JHS", "JCC":
+			taken, fall = ge(cur, k), lt(cur, k)
+		case "JLE", "JBE", "JLS":
+			taken, fall = lt(cur, k+1), ge(cur, k+1)
+		case "JG", "JGT", "JA", "JHI":
+			taken, fall = ge(cur, k+1), lt(cur, k+1)
+		case "JE", "JEQ", "JZ":
+			taken, fall = eq(cur, k), ne(cur, k)
+		case "JNE", "JNZ":
+			taken, fall = ne(cur, k), eq(cur, k)
+		default:
+			return cur, cur, false
+		}
+		return clamp(taken), clamp(fall), true
+	}
+	entry := make([]ival, len(blocks))
+	reached := make([]bool, len(blocks))
+	entry[0], reached[0] = ival{0, inf}, true
+	var probsAll []string
+	for iter := 0; iter < 64; iter++ {
+		changed := false
+		for bi := range blocks {
+			if !reached[bi] {
+				continue
+			}
+			sm := sums[bi]
+			cur := entry[bi]
+			out := ival{cur.lo - sm.dc, cur.hi - sm.dc}
+			if cur.hi >= inf {
+				out.hi = inf
+			}
+			if out.lo < 0 {
+				out.lo = 0 // a block that takes more than it may is reported below
+			}
+			push := func(t int, v ival) {
+				if t < 0 || t >= len(blocks) || v.lo > v.hi {
+					return
+				}
+				if !reached[t] {
+					reached[t], entry[t] = true, v
+					changed = true
+					return
+				}
+				if h := hull(entry[t], v); h != entry[t] {
+					entry[t] = h
+					changed = true
+				}
+			}
+			switch {
+			case sm.ret:
+			case sm.jmp:
+				push(sm.target, out)
+			case sm.jop != "":
+				if sm.hasCmp {
+					if tk, fl, ok := refine(out, sm.jop, sm.cmpK); ok {
+						push(sm.target, tk)
+						push(bi+1, fl)
+						break
+					}
+				}
+				push(sm.target, out)
+				push(bi+1, out)
+			default:
+				push(bi+1, out)
+			}
+		}
+		if !changed {
+			break
+		}
+	}
+	tiles := func(loads map[int64]int64, total int64) string {
+		var os []int64
+		for o := range loads {
+			os = append(os, o)
+		}
+		sort.Slice(os, func(i, j int) bool { return os[i] < os[j] })
+		next := int64(0)
+		for _, o := range os {
+			if o != next {
+				return fmt.Sprintf("gap or overlap at byte %d", next)
+			}
+			next += loads[o]
+		}
+		if next != total {
+			return fmt.Sprintf("%d bytes are read, the pointer advances by %d", next, total)
+		}
+		return ""
+	}
+	nLoops := 0
+	byName := map[string][]string{}
+	nameLine := map[string]int{}
+	var order []string
+	for bi, b := range blocks {
+		if !reached[bi] {
+			continue
+		}
+		sm := sums[bi]
+		touches := len(sm.loadsX)+len(sm.loadsY) > 0 || sm.dx != 0 || sm.dy != 0 || sm.dc != 0
+		if _, seen := nameLine[b.name]; !seen {
+			nameLine[b.name] = b.start
+			order = append(order, b.name)
+			byName[b.name] = nil
+		}
+		if sm.bad != "" {
+			byName[b.name] = append(byName[b.name], sm.bad)
+		}
+		if sm.ret && !(entry[bi].lo == 0 && entry[bi].hi == 0) {
+			byName[b.name] = append(byName[b.name], fmt.Sprintf("the function can return with elements left (count in [%d,%s] at RET)", entry[bi].lo, map[bool]string{true: "unbounded", false: fmt.Sprint(entry[bi].hi)}[entry[bi].hi >= inf]))
+		}
+		if !touches {
+			continue
+		}
+		nLoops++
+		lo := entry[bi].lo
 		var probs []string
-		if addX != addY {
-			probs = append(probs, fmt.Sprintf("x advances by %d bytes, y by %d", addX, addY))
+		if sm.dx != sm.dy {
+			probs = append(probs, fmt.Sprintf("x advances by %d bytes, y by %d", sm.dx, sm.dy))
 		}
-		if sub <= 0 || addX != 4*sub {
-			probs = append(probs, fmt.Sprintf("pointers advance by %d bytes while the count drops by %d floats", addX, sub))
+		if sm.dc <= 0 || sm.dx != 4*sm.dc {
+			probs = append(probs, fmt.Sprintf("pointers advance by %d bytes while the count drops by %d floats", sm.dx, sm.dc))
 		}
-		switch {
-		case sub > 1 && !(guardImm == sub && (guardJump == "JL" || guardJump == "JB" || guardJump == "JLT")):
-			probs = append(probs, fmt.Sprintf("the loop reads %d floats but is guarded by CMPQ count,$%d; %s", sub, guardImm, guardJump))
-		case sub == 1 && !(guardImm == 0 && (guardJump == "JE" || guardJump == "JEQ" || guardJump == "JLE")):
-			probs = append(probs, fmt.Sprintf("the tail loop is guarded by CMPQ count,$%d; %s", guardImm, guardJump))
+		if sm.dc > lo {
+			probs = append(probs, fmt.Sprintf("the block consumes %d floats but the branches leading here only establish that at least %d remain", sm.dc, lo))
 		}
-		for _, r := range []string{px, py} {
-			var os []int64
-			for o := range offs[r] {
-				os = append(os, o)
+		for o, wd := range sm.loadsX {
+			if o < 0 || (o+wd) > 4*lo {
+				probs = append(probs, fmt.Sprintf("reads bytes [%d,%d) through %s with only %d floats known to remain", o, o+wd, px, lo))
+				break
 			}
-			sort.Slice(os, func(i, j int) bool { return os[i] < os[j] })
-			next := int64(0)
-			for _, o := range os {
-				if o != next {
-					probs = append(probs, fmt.Sprintf("reads through %s do not tile the block: gap or overlap at byte %d", r, next))
-					break
+		}
+		for o, wd := range sm.loadsY {
+			if o < 0 || (o+wd) > 4*lo {
+				probs = append(probs, fmt.Sprintf("reads bytes [%d,%d) through %s with only %d floats known to remain", o, o+wd, py, lo))
+				break
+			}
+		}
+		if m := tiles(sm.loadsX, sm.dx); m != "" {
+			probs = append(probs, fmt.Sprintf("reads through %s do not tile the block: %s", px, m))
+		}
+		if m := tiles(sm.loadsY, sm.dy); m != "" {
+			probs = append(probs, fmt.Sprintf("reads through %s do not tile the block: %s", py, m))
+		}
+		if sm.dupX || sm.dupY {
+			probs = append(probs, "an element is read twice in one iteration")
+		}
+		byName[b.name] = append(byName[b.name], probs...)
+	}
+	for _, name := range order {
+		probs := byName[name]
+		key := f.name + ":" + name
+		hasWork := false
+		for bi, b := range blocks {
+			if b.name == name && reached[bi] {
+				sm := sums[bi]
+				if len(sm.loadsX)+len(sm.loadsY) > 0 || sm.dc != 0 || sm.ret {
+					hasWork = true
 				}
-				next += offs[r][o]
 			}
-			if next != addX && len(probs) == 0 {
-				probs = append(probs, fmt.Sprintf("reads through %s cover %d bytes, the pointer advances by %d", r, next, addX))
-			}
+		}
+		if !hasWork && len(probs) == 0 {
+			continue
 		}
 		if len(probs) > 0 {
-			c.Add("ASM", key, core.Violation, at(lp.start), strings.Join(probs, "; "), props...)
+			c.Add("ASM", key, core.Violation, at(nameLine[name]), strings.Join(dedupe(probs), "; "), props...)
 		} else {
-			c.Add("ASM", key, core.OK, at(lp.start), fmt.Sprintf("%d floats, %d bytes per iteration", sub, addX), props...)
+			c.Add("ASM", key, core.OK, at(nameLine[name]), "", props...)
+		}
+	}
+	_ = probsAll
+	if nLoops < 2 {
+		c.Add("ASM", f.name+":loops", core.Undecided, rel, fmt.Sprintf("expected a block loop and a tail loop, found %d blocks that consume elements", nLoops), props...)
+		return
+	}
+	lastLoopEnd := 0
+	for i, in := range f.ins {
+		if (in.op == "JMP" || isJcc(in.op)) && len(in.args) == 1 {
+			if t, ok := f.label[in.args[0]]; ok && t <= i && i > lastLoopEnd {
+				lastLoopEnd = i
+			}
 		}
 	}
 	// every accumulator is folded into the result after the loops
